@@ -765,6 +765,52 @@ def ball_search_set():
     return C
 
 
+BCTL = "mpf/core/ball_controller.py"
+
+
+def balance_set():
+    """BallController._balance_playfields: a ball that jumped to another playfield is booked from a playfield that HOLDS
+    a ball (count > 0) to the one whose count went negative - per-playfield counts follow the physical balls"""
+    C = ContractSet("C04p", "playfield balancing books a jumped ball from where it physically was")
+    C.strings = False
+    C.cls("MpfController", fields={})
+    C.cls("EventManager", fields={})
+    C.ext("EventManager.post", model=lambda I, env, a, k: (emit(I, "post", event=a[0], kwargs=dict(k)), NONE)[1],
+          trusted_reason="event posting (C01)")
+    C.cls("PlayfieldI", fields=dict(balls=Int, available_balls=Int))
+
+    def two(I, name):
+        return I.new_list([I.fresh(ObjS("PlayfieldI"), "%s[%d]" % (name, i)) for i in range(2)], name)
+    C.cls("PlayfieldsI", fields=dict(items_=Init(two)))
+    C.ext("PlayfieldsI.values", model=lambda I, env, a, k: I.read_field(env["self"].ref, "items_"),
+          trusted_reason="DeviceCollection.values(): the playfields (two here)")
+    C.cls("BallController", file=BCTL, bases=["MpfController"], fields=dict(
+        machine=ObjS("MachineController", events=ObjS("EventManager"), playfields=ObjS("PlayfieldsI"))))
+    A, B = "self.machine.playfields.items_[0]", "self.machine.playfields.items_[1]"
+    C.fn("BallController._balance_playfields",
+         loops_by_text={"playfield_target in": LoopSpec(invariant=[], unroll=True),
+                        "playfield_source in": LoopSpec(invariant=[], unroll=True)},
+         requires=[("at most one ball is unaccounted per pass (the count handler calls this after every single capture)",
+                    "%s.balls >= -1 and %s.balls >= -1" % (A, B))],
+         ensures=[("BP1: a playfield whose count went negative gets the ball booked from the OTHER playfield whenever that "
+                   "one physically holds a ball (count > 0) - whether or not that ball is 'available' - and never from "
+                   "itself: the short playfield goes up by one, the other down by one",
+                   "implies(old({a}.balls) < 0 and old({b}.balls) > 0, {a}.balls == old({a}.balls) + 1 and "
+                   "{b}.balls == old({b}.balls) - 1 and {a}.available_balls == old({a}.available_balls) + 1 and "
+                   "{b}.available_balls == old({b}.available_balls) - 1) and "
+                   "implies(old({b}.balls) < 0 and old({a}.balls) > 0, {b}.balls == old({b}.balls) + 1 and "
+                   "{a}.balls == old({a}.balls) - 1)".format(a=A, b=B)),
+                  ("BP2: balancing never creates or loses a ball: the counts sum to what they did",
+                   "{a}.balls + {b}.balls == old({a}.balls) + old({b}.balls) and {a}.available_balls + "
+                   "{b}.available_balls == old({a}.available_balls) + old({b}.available_balls)".format(a=A, b=B)),
+                  ("BP3: nothing moves while no count is negative",
+                   "implies(old({a}.balls) >= 0 and old({b}.balls) >= 0, {a}.balls == old({a}.balls) and "
+                   "{b}.balls == old({b}.balls))".format(a=A, b=B))],
+         modifies=["%s.balls" % A, "%s.balls" % B, "%s.available_balls" % A, "%s.available_balls" % B], raises={},
+         bounded="BOUNDED: two playfields")
+    return C
+
+
 def build_extra():
     # 'MPF never fires a ball towards a device that has no room': every physical attempt of the eject loop - the first
     # one AND every retry - comes after the target's readiness gate (C05's contract on _ejecting, clause E1)
@@ -779,4 +825,4 @@ def build_extra():
     c05i.replay_pid = "C05"
     c05i.only_verify = ["IncomingBallsHandler.get_num_incoming_balls", "IncomingBallsHandler.add_incoming_ball",
                         "IncomingBall.ball_arrived", "IncomingBall.did_not_arrive"]
-    return [c05, counter_set(), loss_set(), c05i, ball_search_set()]
+    return [c05, counter_set(), loss_set(), c05i, ball_search_set(), balance_set()]
